@@ -60,12 +60,100 @@ func callSites(c *Ctx, dirs []string, name string) []string {
 	return out
 }
 
+// goFiles lists the non-test, non-verif Go files of a package directory (relative paths).
+func goFiles(c *Ctx, dir string) []string {
+	var out []string
+	ents, err := os.ReadDir(filepath.Join(c.Repo, dir))
+	if err != nil {
+		return nil
+	}
+	for _, e := range ents {
+		fn := e.Name()
+		if e.IsDir() || !strings.HasSuffix(fn, ".go") || strings.HasSuffix(fn, "_test.go") || strings.Contains(fn, "verif") {
+			continue
+		}
+		out = append(out, filepath.Join(dir, fn))
+	}
+	sort.Strings(out)
+	return out
+}
+
+func isErrorSentinel(e ast.Expr) bool {
+	ce, ok := e.(*ast.CallExpr)
+	if !ok {
+		return false
+	}
+	sel, ok := ce.Fun.(*ast.SelectorExpr)
+	if !ok {
+		return false
+	}
+	x, ok := sel.X.(*ast.Ident)
+	if !ok {
+		return false
+	}
+	switch x.Name + "." + sel.Sel.Name {
+	case "errors.New", "fmt.Errorf", "status.Error", "status.Errorf":
+		return true
+	}
+	return false
+}
+
+// sharedState: package-level state through which one component could reach another's configuration.
+//   - every package-level variable that is not blank (`var _ = …` compile-time assertions) and not an immutable error
+//     sentinel (errors.New / fmt.Errorf / status.Error[f]) — "file:name";
+//   - every use of sync.Once / sync.Pool as a type anywhere in the package (sync.Map / Mutex fields of instances are per-instance state) — "file:sync.X".
+func sharedState(c *Ctx, dirs []string) (vars []string, syncUses []string) {
+	for _, d := range dirs {
+		for _, rel := range goFiles(c, d) {
+			f, err := parser.ParseFile(c.Fset, filepath.Join(c.Repo, rel), nil, 0)
+			if err != nil {
+				vars = append(vars, rel+":<unparsable>")
+				continue
+			}
+			for _, decl := range f.Decls {
+				gd, ok := decl.(*ast.GenDecl)
+				if !ok || gd.Tok.String() != "var" {
+					continue
+				}
+				for _, sp := range gd.Specs {
+					vs := sp.(*ast.ValueSpec)
+					for i, id := range vs.Names {
+						if id.Name == "_" {
+							continue
+						}
+						if i < len(vs.Values) && isErrorSentinel(vs.Values[i]) {
+							continue
+						}
+						vars = append(vars, rel+":"+id.Name)
+					}
+				}
+			}
+			ast.Inspect(f, func(n ast.Node) bool {
+				if sel, ok := n.(*ast.SelectorExpr); ok {
+					if x, ok := sel.X.(*ast.Ident); ok && x.Name == "sync" && (sel.Sel.Name == "Once" || sel.Sel.Name == "Pool") {
+						syncUses = append(syncUses, rel+":sync."+sel.Sel.Name)
+					}
+				}
+				return true
+			})
+		}
+	}
+	sort.Strings(vars)
+	sort.Strings(syncUses)
+	return
+}
+
 // Constants of grpcadapter/metadata.go and the places where metadata can cross the bridge.
 func extractC07(c *Ctx) {
 	for _, p := range [][2]string{{"grpcGatewayMetadataPrefix", "c07GatewayPrefix"}, {"metadataTimeout", "c07TimeoutKey"}, {"metadataBinSuffix", "c07BinSuffix"}} {
 		v, pos, _ := constString(c, "grpcadapter/metadata.go", p[0])
 		c.Add(p[1], "List Nat", leanBytes(v), pos, p[0])
 	}
+	// construction glue: no shared mutable default components, the default forwarder is created per constructor call
+	vars, syncUses := sharedState(c, []string{".", "grpcadapter"})
+	c.Add("c07MutablePackageVars", "List String", LeanStrList(vars), "", "package-level variables of the root package and grpcadapter that are neither blank nor error sentinels (file:name)")
+	c.Add("c07SharedSyncTypes", "List String", LeanStrList(syncUses), "", "uses of sync.Once / sync.Pool in the root package and grpcadapter (file:type)")
+	c.Add("c07DefaultForwarderSites", "List String", LeanStrList(callSites(c, []string{"."}, "NewForwarder")), "", "functions of the root package that call NewForwarder() (file:function)")
 	dirs := []string{".", "grpcadapter", "webbridge", "routing", "transcoding", "reflection", "bridgedesc", "bridgelog"}
 	for _, p := range [][2]string{
 		{"NewOutgoingContext", "c07OutgoingContextSites"}, {"AppendToOutgoingContext", "c07AppendOutgoingSites"},
